@@ -393,3 +393,91 @@ func onlyCalledFrom(c *Ctx, key, root string, depth int) bool {
 	}
 	return n > 0
 }
+
+// R14k / R04h: file handles in the disk cache.
+//
+// R14k: a method is called on an *os.File only on paths where the call that produced it returned no
+// error (on the error path the handle is nil: the call panics the request's goroutine, and with it
+// the process for background goroutines).
+// R04h: when the file of an indexed entry cannot be opened while the index lock is held (nobody can
+// have replaced it in between), the entry is dropped from the index - otherwise it stays indexed
+// without a file and every later request for it fails.
+func fileHandleRules(c *Ctx) {
+	R := c.R
+	R.Rule("R14k", "E2", "no method call on a nil file: an *os.File obtained together with an error is used only on paths where that error is nil", 3)
+	R.Rule("R04h", "E2", "an indexed entry whose file cannot be opened under the index lock is removed from the index (no indexed entry without a file)", 1)
+	nOpen, nDropPaths := 0, 0
+	for _, key := range []string{kAvail, kGet, kPut} {
+		fi := c.P.MustFunc(R, "R14k", key)
+		if fi == nil {
+			continue
+		}
+		var b *Base
+		b = NewBase(Hooks{
+			Call: func(x *Exec, call *ast.CallExpr, lhs []ast.Expr, s St) ([]St, bool) {
+				k := fullCalleeName(x.Fn.Info, call)
+				if (k == "os.Open" || k == "os.OpenFile") && len(lhs) == 2 {
+					nOpen++
+					locked := s.Get("lk") == "1"
+					return b.ForkErr(x, lhs, 1, s, func(ok St) St {
+						if t, k := b.LTerm(x, lhs[0], ok); k {
+							ok = ok.Set("n:"+t, "nonnil")
+						}
+						return ok
+					}, func(bad St) St {
+						if t, k := b.LTerm(x, lhs[0], bad); k {
+							bad = bad.Set("n:"+t, "nil")
+						}
+						if locked && key == kAvail {
+							bad = bad.Set("openfailed", "1")
+						}
+						return bad
+					}), true
+				}
+				if calleeKey(x.Fn.Info, call) == "disk.(*SizedLRU).RemoveElement" || calleeKey(x.Fn.Info, call) == "disk.(*SizedLRU).RemoveKey" {
+					return []St{s.Set("dropped", "1")}, true
+				}
+				return nil, false
+			},
+			EveryCall: func(x *Exec, call *ast.CallExpr, s St) []St {
+				switch fullCalleeName(x.Fn.Info, call) {
+				case "sync.(Mutex).Lock":
+					return []St{s.Set("lk", "1")}
+				case "sync.(Mutex).Unlock":
+					return []St{s.Set("lk", "")}
+				}
+				sel, ok := call.Fun.(*ast.SelectorExpr)
+				if !ok || x.InDefer {
+					return []St{s}
+				}
+				if t := x.Fn.Info.TypeOf(sel.X); t == nil || t.String() != "*os.File" {
+					return []St{s}
+				}
+				if ft, ok := b.Term(x, sel.X, s); ok && s.Get("n:"+ft) == "nil" {
+					R.Check(false, "R14k", fmt.Sprintf("%s%s:%s#%d:on-nil-file", c.Cfg, key, sel.Sel.Name, callOrdinal(x, call)), c.P.Pos(call.Pos()),
+						"the file handle is non-nil where "+sel.Sel.Name+" is called on it",
+						exprStr(sel.X)+"."+sel.Sel.Name+"() is reachable on a path where the open that produced "+exprStr(sel.X)+" failed (nil handle): the call panics", x.Trace()...)
+				} else {
+					R.Check(true, "R14k", fmt.Sprintf("%s%s:%s#%d:on-nil-file", c.Cfg, key, sel.Sel.Name, callOrdinal(x, call)), c.P.Pos(call.Pos()),
+						"the file handle is non-nil where "+sel.Sel.Name+" is called on it", "")
+				}
+				return []St{s}
+			},
+			Exit: func(x *Exec, ret *ast.ReturnStmt, s St) {
+				if key == kAvail && s.Get("openfailed") == "1" {
+					nDropPaths++
+					R.Check(s.Get("dropped") == "1", "R04h", fmt.Sprintf("%s%s:return#%d:open-failed-dropped", c.Cfg, key, returnOrdinal(x.Fn, ret)), c.P.Pos(posOf(x, ret)),
+						"an entry whose file could not be opened under the lock is removed from the index", "the open failed while the index lock was held, yet the entry stays indexed: it has no file and every request for it fails", x.Trace()...)
+				}
+			},
+		})
+		b.AutoInline = func(h *FuncInfo) bool { return h.Pkg == fi.Pkg && !ast.IsExported(h.Decl.Name.Name) && hasCloserSig(h) }
+		x := NewExec(c.P.FlowOf(fi), b)
+		x.Run(newSt())
+		if x.Aborted != "" {
+			R.Fail("R14k", c.Cfg+key+":explore", "", "exploration did not complete: "+x.Aborted)
+		}
+	}
+	R.Check(nOpen >= 3, "R14k", c.Cfg+"open-sites", "", "the os.Open sites of Put / get / availableOrTryProxy were analysed", fmt.Sprintf("found %d", nOpen))
+	R.Check(nDropPaths > 0, "R04h", c.Cfg+"open-failure-paths", "", "paths on which the open under the lock fails were found", "none found")
+}
